@@ -12,6 +12,7 @@ Hypothesis `GpWellFormed`: general purpose register operands carry no element ty
 class has no way to set them; the harness never generates them).
 -/
 import AsmjitVerif.Props.C02
+import AsmjitVerif.Model.A64AsmMem
 import AsmjitVerif.Lemmas.C02Describe
 import AsmjitVerif.Gen.A64DB
 namespace AsmjitVerif.C02
@@ -116,6 +117,189 @@ theorem baseRRR_end_to_end (r : InstRow) (hr : r ∈ instTable.toList) (henc : r
   subst hws
   have hany : (formsNamed r.name).any (fun f => !f.isPartial && describes f [.reg o0, .reg o1, .reg o2] pc
       (w32 d.opcode ||| addImm (xOf o0 d.a_type) 31 ||| addReg o2.id 16 ||| addReg o1.id 5 ||| addReg o0.id 0)) = true := by
+    rw [List.any_eq_true]
+    exact ⟨f, hfmem, by simp [hfull]; simpa [addImm, addReg] using hdesc⟩
+  simp [judge, hany]
+
+/-! ### the same end-to-end step for the other three-register classes (uniform W/X, ZR) -/
+
+/-- per-row condition for a uniform three-register instruction with opcode constant `opcode` (sf at bit 31) -/
+def uniformRRRRowOk (name : String) (opcode : Nat) : Bool :=
+  (w32 opcode &&& 0x001F03FF#32 == 0#32) &&
+  [rtGp32, rtGp64].all fun t =>
+    (formsNamed name).any fun f =>
+      isRRRForm f (wOfRt t) (wOfRt t) (wOfRt t) false false false
+        (w32 opcode ||| (BitVec.ofNat 32 (xOf { rt := t, id := 0 } kWX) <<< 31))
+
+theorem uniform_rrr_end_to_end (name : String) (opcode : Nat) (hrow : uniformRRRRowOk name opcode = true)
+    (o0 o1 o2 : Reg) (wf0 : GpWellFormed o0) (wf1 : GpWellFormed o1) (wf2 : GpWellFormed o2)
+    (t0 : checkGpType o0 kWX = true) (e1 : o0.rt = o1.rt) (e2 : o1.rt = o2.rt)
+    (i0 : checkGpId o0 idZR = true) (i1 : checkGpId o1 idZR = true) (i2 : checkGpId o2 idZR = true) (pc : BitVec 64) :
+    judge (formsNamed name) name [.reg o0, .reg o1, .reg o2] pc
+      (.ok [w32 opcode ||| addImm (xOf o0 kWX) 31 ||| addReg o2.id 16 ||| addReg o1.id 5 ||| addReg o0.id 0]) = .full := by
+  simp only [uniformRRRRowOk, Bool.and_eq_true, beq_iff_eq] at hrow
+  obtain ⟨hclean, hall⟩ := hrow
+  have r0 := gp_rt_of_check o0 kWX (by decide) t0
+  have m0 : o0.rt ∈ [rtGp32, rtGp64] := by simp; exact r0
+  have hcombo := (List.all_eq_true.mp hall) o0.rt m0
+  rw [List.any_eq_true] at hcombo
+  obtain ⟨f, hfmem, hform⟩ := hcombo
+  have ex : xOf { rt := o0.rt, id := 0 } kWX = xOf o0 kWX := rfl
+  rw [ex] at hform
+  have t1 : checkGpType o1 kWX = true := by unfold checkGpType at *; rw [← e1]; exact t0
+  have t2 : checkGpType o2 kWX = true := by unfold checkGpType at *; rw [← e2, ← e1]; exact t0
+  have g0 := gpOk_of_checks o0 kWX idZR (by decide) (Or.inr rfl) wf0 t0 i0
+  have g1 := gpOk_of_checks o1 kWX idZR (by decide) (Or.inr rfl) wf1 t1 i1
+  have g2 := gpOk_of_checks o2 kWX idZR (by decide) (Or.inr rfl) wf2 t2 i2
+  rw [← e1] at g1
+  rw [← e2, ← e1] at g2
+  have hz : (idZR == idSP) = false := by decide
+  rw [hz] at g0 g1 g2
+  have hdesc := rrr_describes f _ _ _ _ _ _ (w32 opcode) (BitVec.ofNat 32 (xOf o0 kWX)) o0 o1 o2 pc hform hclean g0 g1 g2
+  have hfull : f.isPartial = false := by
+    simp only [isRRRForm, Bool.and_eq_true, beq_iff_eq] at hform
+    obtain ⟨⟨⟨⟨⟨⟨⟨⟨hops, _⟩, _⟩, _⟩, hfree⟩, _⟩, _⟩, _⟩, _⟩ := hform
+    simp [Form.isPartial, hops, OpSpec.isPartial, hfree]
+  have hany : (formsNamed name).any (fun f => !f.isPartial && describes f [.reg o0, .reg o1, .reg o2] pc
+      (w32 opcode ||| addImm (xOf o0 kWX) 31 ||| addReg o2.id 16 ||| addReg o1.id 5 ||| addReg o0.id 0)) = true := by
+    rw [List.any_eq_true]
+    exact ⟨f, hfmem, by simp [hfull]; simpa [addImm, addReg] using hdesc⟩
+  simp [judge, hany]
+
+set_option maxRecDepth 1000000 in
+/-- every BaseShift row (register form: lsl/lsr/asr/ror and lslv/lsrv/asrv/rorv) has its database forms -/
+theorem rows_baseShift_have_forms :
+    instTable.toList.all (fun r => r.enc != encBaseShift ||
+      (match baseShift[r.idx]? with
+       | some d => uniformRRRRowOk r.name d.register_op
+       | none => false)) = true := by decide +kernel
+
+set_option maxRecDepth 1000000 in
+/-- every BaseMinMax row (register form: smax/smin/umax/umin) has its database forms -/
+theorem rows_baseMinMax_have_forms :
+    instTable.toList.all (fun r => r.enc != encBaseMinMax ||
+      (match baseMinMax[r.idx]? with
+       | some d => uniformRRRRowOk r.name d.register_op
+       | none => false)) = true := by decide +kernel
+
+theorem shiftReg_accepts_facts (d : BaseShiftRow) (o0 o1 o2 : Reg) (ws : List (BitVec 32)) (h : emitShiftReg d o0 o1 o2 = .ok ws) :
+    checkGpType o0 kWX = true ∧ o0.rt = o1.rt ∧ o1.rt = o2.rt ∧
+    checkGpId o0 idZR = true ∧ checkGpId o1 idZR = true ∧ checkGpId o2 idZR = true ∧
+    ws = [w32 d.register_op ||| addImm (xOf o0 kWX) 31 ||| addReg o2.id 16 ||| addReg o1.id 5 ||| addReg o0.id 0] := by
+  unfold emitShiftReg at h
+  repeat (split at h <;> try (simp [invalidInstruction, invalidPhysId] at h))
+  simp [ok1] at h
+  simp_all [Reg.sameSig]
+
+theorem minmaxReg_accepts_facts (d : BaseMinMaxRow) (o0 o1 o2 : Reg) (ws : List (BitVec 32)) (h : emitMinMaxReg d o0 o1 o2 = .ok ws) :
+    checkGpType o0 kWX = true ∧ o0.rt = o1.rt ∧ o1.rt = o2.rt ∧
+    checkGpId o0 idZR = true ∧ checkGpId o1 idZR = true ∧ checkGpId o2 idZR = true ∧
+    ws = [w32 d.register_op ||| addImm (xOf o0 kWX) 31 ||| addReg o2.id 16 ||| addReg o1.id 5 ||| addReg o0.id 0] := by
+  unfold emitMinMaxReg at h
+  repeat (split at h <;> try (simp [invalidInstruction, invalidPhysId] at h))
+  simp [ok1] at h
+  simp_all [Reg.sameSig]
+
+/-- **End-to-end, kEncodingBaseShift (register forms)** -/
+theorem shiftReg_end_to_end (r : InstRow) (hr : r ∈ instTable.toList) (henc : r.enc = encBaseShift)
+    (d : BaseShiftRow) (hd : baseShift[r.idx]? = some d) (o0 o1 o2 : Reg)
+    (wf0 : GpWellFormed o0) (wf1 : GpWellFormed o1) (wf2 : GpWellFormed o2)
+    (ws : List (BitVec 32)) (pc : BitVec 64) (h : emitShiftReg d o0 o1 o2 = .ok ws) :
+    judge (formsNamed r.name) r.name [.reg o0, .reg o1, .reg o2] pc (.ok ws) = .full := by
+  have hrow := (List.all_eq_true.mp rows_baseShift_have_forms) r hr
+  simp only [henc, bne_self_eq_false, Bool.false_or, hd] at hrow
+  obtain ⟨t0, e1, e2, i0, i1, i2, hws⟩ := shiftReg_accepts_facts d o0 o1 o2 ws h
+  subst hws
+  exact uniform_rrr_end_to_end r.name d.register_op hrow o0 o1 o2 wf0 wf1 wf2 t0 e1 e2 i0 i1 i2 pc
+
+/-- **End-to-end, kEncodingBaseMinMax (register forms)** -/
+theorem minmaxReg_end_to_end (r : InstRow) (hr : r ∈ instTable.toList) (henc : r.enc = encBaseMinMax)
+    (d : BaseMinMaxRow) (hd : baseMinMax[r.idx]? = some d) (o0 o1 o2 : Reg)
+    (wf0 : GpWellFormed o0) (wf1 : GpWellFormed o1) (wf2 : GpWellFormed o2)
+    (ws : List (BitVec 32)) (pc : BitVec 64) (h : emitMinMaxReg d o0 o1 o2 = .ok ws) :
+    judge (formsNamed r.name) r.name [.reg o0, .reg o1, .reg o2] pc (.ok ws) = .full := by
+  have hrow := (List.all_eq_true.mp rows_baseMinMax_have_forms) r hr
+  simp only [henc, bne_self_eq_false, Bool.false_or, hd] at hrow
+  obtain ⟨t0, e1, e2, i0, i1, i2, hws⟩ := minmaxReg_accepts_facts d o0 o1 o2 ws h
+  subst hws
+  exact uniform_rrr_end_to_end r.name d.register_op hrow o0 o1 o2 wf0 wf1 wf2 t0 e1 e2 i0 i1 i2 pc
+
+/-! ### kEncodingBaseRRRR (madd, msub, smaddl, smsubl, umaddl, umsubl) -/
+
+def rrrrRowOk (name : String) (d : BaseRRRRRow) : Bool :=
+  (d.a_hi_id == idSP || d.a_hi_id == idZR) && (d.b_hi_id == idSP || d.b_hi_id == idZR) && (d.c_hi_id == idSP || d.c_hi_id == idZR) &&
+  (d.d_hi_id == idSP || d.d_hi_id == idZR) &&
+  (w32 d.opcode &&& 0x001F7FFF#32 == 0#32) && decide (d.a_type ≤ 3) && decide (d.b_type ≤ 3) && decide (d.c_type ≤ 3) && decide (d.d_type ≤ 3) &&
+  [rtGp32, rtGp64].all fun ta => [rtGp32, rtGp64].all fun tb => [rtGp32, rtGp64].all fun tc => [rtGp32, rtGp64].all fun td =>
+    !(checkGpType { rt := ta, id := 0 } d.a_type && checkGpType { rt := tb, id := 0 } d.b_type && checkGpType { rt := tc, id := 0 } d.c_type &&
+      checkGpType { rt := td, id := 0 } d.d_type && (d.uniform == 0 || (ta == tb && tb == tc && tc == td))) ||
+    (formsNamed name).any fun f =>
+      isRRRRForm f (wOfRt ta) (wOfRt tb) (wOfRt tc) (wOfRt td) (d.a_hi_id == idSP) (d.b_hi_id == idSP) (d.c_hi_id == idSP) (d.d_hi_id == idSP)
+        (w32 d.opcode ||| (BitVec.ofNat 32 (xOf { rt := ta, id := 0 } d.a_type) <<< 31))
+
+set_option maxRecDepth 1000000 in
+theorem rows_baseRRRR_have_forms :
+    instTable.toList.all (fun r => r.enc != encBaseRRRR ||
+      (match baseRRRR[r.idx]? with
+       | some d => rrrrRowOk r.name d
+       | none => false)) = true := by decide +kernel
+
+theorem baseRRRR_accepts_facts (d : BaseRRRRRow) (o0 o1 o2 o3 : Reg) (ws : List (BitVec 32)) (h : emitBaseRRRR d o0 o1 o2 o3 = .ok ws) :
+    checkGpType o0 d.a_type = true ∧ checkGpType o1 d.b_type = true ∧ checkGpType o2 d.c_type = true ∧ checkGpType o3 d.d_type = true ∧
+    (d.uniform = 0 ∨ (o0.rt = o1.rt ∧ o1.rt = o2.rt ∧ o2.rt = o3.rt)) ∧
+    checkGpId o0 d.a_hi_id = true ∧ checkGpId o1 d.b_hi_id = true ∧ checkGpId o2 d.c_hi_id = true ∧ checkGpId o3 d.d_hi_id = true ∧
+    ws = [w32 d.opcode ||| addImm (xOf o0 d.a_type) 31 ||| addReg o2.id 16 ||| addReg o3.id 10 ||| addReg o1.id 5 ||| addReg o0.id 0] := by
+  unfold emitBaseRRRR at h
+  repeat (split at h <;> try (simp [invalidInstruction, invalidPhysId] at h))
+  simp [ok1] at h
+  simp_all [Reg.sameSig]
+  by_cases hu : d.uniform = 0 <;> simp_all
+
+/-- **End-to-end, kEncodingBaseRRRR** -/
+theorem baseRRRR_end_to_end (r : InstRow) (hr : r ∈ instTable.toList) (henc : r.enc = encBaseRRRR)
+    (d : BaseRRRRRow) (hd : baseRRRR[r.idx]? = some d) (o0 o1 o2 o3 : Reg)
+    (wf0 : GpWellFormed o0) (wf1 : GpWellFormed o1) (wf2 : GpWellFormed o2) (wf3 : GpWellFormed o3)
+    (ws : List (BitVec 32)) (pc : BitVec 64) (h : emitBaseRRRR d o0 o1 o2 o3 = .ok ws) :
+    judge (formsNamed r.name) r.name [.reg o0, .reg o1, .reg o2, .reg o3] pc (.ok ws) = .full := by
+  have hrow := (List.all_eq_true.mp rows_baseRRRR_have_forms) r hr
+  simp only [henc, bne_self_eq_false, Bool.false_or, hd] at hrow
+  obtain ⟨t0, t1, t2, t3, huni, i0, i1, i2, i3, hws⟩ := baseRRRR_accepts_facts d o0 o1 o2 o3 ws h
+  simp only [rrrrRowOk, Bool.and_eq_true, Bool.or_eq_true, beq_iff_eq, decide_eq_true_eq] at hrow
+  obtain ⟨⟨⟨⟨⟨⟨⟨⟨⟨ha, hb⟩, hc⟩, hdd⟩, hclean⟩, hta⟩, htb⟩, htc⟩, htd⟩, hall⟩ := hrow
+  have r0 := gp_rt_of_check o0 d.a_type hta t0
+  have r1 := gp_rt_of_check o1 d.b_type htb t1
+  have r2 := gp_rt_of_check o2 d.c_type htc t2
+  have r3 := gp_rt_of_check o3 d.d_type htd t3
+  have m0 : o0.rt ∈ [rtGp32, rtGp64] := by simp; exact r0
+  have m1 : o1.rt ∈ [rtGp32, rtGp64] := by simp; exact r1
+  have m2 : o2.rt ∈ [rtGp32, rtGp64] := by simp; exact r2
+  have m3 : o3.rt ∈ [rtGp32, rtGp64] := by simp; exact r3
+  have hcombo := (List.all_eq_true.mp ((List.all_eq_true.mp ((List.all_eq_true.mp ((List.all_eq_true.mp hall) o0.rt m0)) o1.rt m1)) o2.rt m2)) o3.rt m3
+  have hcond : (checkGpType { rt := o0.rt, id := 0 } d.a_type && checkGpType { rt := o1.rt, id := 0 } d.b_type &&
+      checkGpType { rt := o2.rt, id := 0 } d.c_type && checkGpType { rt := o3.rt, id := 0 } d.d_type &&
+      (d.uniform == 0 || (o0.rt == o1.rt && o1.rt == o2.rt && o2.rt == o3.rt))) = true := by
+    have e0 : checkGpType { rt := o0.rt, id := 0 } d.a_type = checkGpType o0 d.a_type := rfl
+    have e1 : checkGpType { rt := o1.rt, id := 0 } d.b_type = checkGpType o1 d.b_type := rfl
+    have e2 : checkGpType { rt := o2.rt, id := 0 } d.c_type = checkGpType o2 d.c_type := rfl
+    have e3 : checkGpType { rt := o3.rt, id := 0 } d.d_type = checkGpType o3 d.d_type := rfl
+    rw [e0, e1, e2, e3, t0, t1, t2, t3]
+    rcases huni with hu | ⟨hu1, hu2, hu3⟩
+    · simp [hu]
+    · simp [hu1, hu2, hu3]
+  simp only [hcond, Bool.not_true, Bool.false_or, List.any_eq_true] at hcombo
+  obtain ⟨f, hfmem, hform⟩ := hcombo
+  have ex : xOf { rt := o0.rt, id := 0 } d.a_type = xOf o0 d.a_type := rfl
+  rw [ex] at hform
+  have hdesc := rrrr_describes f _ _ _ _ _ _ _ _ (w32 d.opcode) (BitVec.ofNat 32 (xOf o0 d.a_type)) o0 o1 o2 o3 pc hform hclean
+    (gpOk_of_checks o0 d.a_type d.a_hi_id hta ha wf0 t0 i0) (gpOk_of_checks o1 d.b_type d.b_hi_id htb hb wf1 t1 i1)
+    (gpOk_of_checks o2 d.c_type d.c_hi_id htc hc wf2 t2 i2) (gpOk_of_checks o3 d.d_type d.d_hi_id htd hdd wf3 t3 i3)
+  have hfull : f.isPartial = false := by
+    simp only [isRRRRForm, Bool.and_eq_true, beq_iff_eq] at hform
+    obtain ⟨⟨⟨⟨⟨⟨⟨⟨⟨hops, _⟩, _⟩, _⟩, _⟩, hfree⟩, _⟩, _⟩, _⟩, _⟩ := hform
+    simp [Form.isPartial, hops, OpSpec.isPartial, hfree]
+  subst hws
+  have hany : (formsNamed r.name).any (fun f => !f.isPartial && describes f [.reg o0, .reg o1, .reg o2, .reg o3] pc
+      (w32 d.opcode ||| addImm (xOf o0 d.a_type) 31 ||| addReg o2.id 16 ||| addReg o3.id 10 ||| addReg o1.id 5 ||| addReg o0.id 0)) = true := by
     rw [List.any_eq_true]
     exact ⟨f, hfmem, by simp [hfull]; simpa [addImm, addReg] using hdesc⟩
   simp [judge, hany]
